@@ -56,6 +56,8 @@ func c14Plain(t *rapid.T, op string, thread int) {
 			go func() { defer wg.Done(); _ = t.Failed() }()
 			wg.Wait()
 		})
+	case "Repeat":
+		t.Repeat(map[string]func(*rapid.T){"noop": func(*rapid.T) {}})
 	case "Draw":
 		rapid.Bool().Draw(t, "b")
 	}
@@ -71,6 +73,9 @@ func FreeRunMain(id string, n int) {
 				tb.Quiet = !sc.verbose
 				rapid.VerifRunBuf(tb, []uint64{1, 0, 1, 1, 0, 0, 1, 0}, sc.verbose, func(t *rapid.T) {
 					var wg sync.WaitGroup
+					if sc.late {
+						t.Cleanup(func() { wg.Wait() })
+					}
 					for ti, ops := range sc.threads {
 						ti, ops := ti, ops
 						wg.Add(1)
@@ -81,10 +86,12 @@ func FreeRunMain(id string, n int) {
 							}
 						}()
 					}
+					if !sc.late {
+						defer wg.Wait()
+					}
 					for _, op := range sc.mainOps {
 						c14Plain(t, op, 0)
 					}
-					wg.Wait()
 				})
 			}
 		}
